@@ -101,7 +101,7 @@ func genStep(p *Profile, cfg *Config) *rapid.Generator[[]Op] {
 		}
 		switch rapid.SampledFrom(kinds).Draw(t, "kind") {
 		case "resolve":
-			op := Op{K: "resolve", Addrs: rapid.SampledFrom([]int{0, 0, 1, 2, 3, 3, 4, 5, 6, 7, 8}).Draw(t, "addrs"), Cfg: 1, SC: rapid.IntRange(0, 3).Draw(t, "sc") == 0}
+			op := Op{K: "resolve", Addrs: rapid.SampledFrom([]int{0, 0, 1, 2, 3, 3, 4, 5, 6, 7, 8, 9, 10}).Draw(t, "addrs"), Cfg: 1, SC: rapid.IntRange(0, 3).Draw(t, "sc") == 0}
 			if p.CfgOps {
 				op.Cfg = rapid.SampledFrom([]int{0, 1, 1, 2, 3}).Draw(t, "cfg")
 			}
